@@ -21,7 +21,7 @@
 #include "testkeys/EC/ED25519_CA.h"
 #include "testkeys/ECDH_RSA/256_ECDH-RSA.h"
 #include "testkeys/ECDH_RSA/256_ECDH-RSA_KEY.h"
-#include "testkeys/ECDH_RSA/2048_ECDH-RSA_CA.h"
+#include "testkeys/ECDH_RSA/1024_ECDH-RSA_CA.h"
 #include "testkeys/PSK/psk.h"
 #include "testkeys/PSK/tls13_psk.h"
 #include "keys.h"
@@ -34,7 +34,7 @@ int vsim_keymat(int kind, struct vsim_keymat *m)
         KM(RSA2048, RSA2048KEY, RSA2048CA),       /* KK_RSA2048 = 1 */
         KM(EC256, EC256KEY, EC256CA),             /* KK_EC256 */
         KM(EC384, EC384KEY, EC384CA),             /* KK_EC384 */
-        KM(ECDHRSA256, ECDHRSA256KEY, ECDHRSA2048CA), /* KK_ECDH_RSA */
+        KM(ECDHRSA256, ECDHRSA256KEY, ECDHRSA1024CA), /* KK_ECDH_RSA */
         KM(ED25519, ED25519_KEY, ED25519CA),      /* KK_ED25519 */
         KM(RSA1024, RSA1024KEY, RSA1024CA),       /* KK_RSA1024 */
         KM(EC521, EC521KEY, EC521CA),             /* KK_EC521 */
